@@ -231,6 +231,10 @@ func c15GenExtra(r *Rng, f *c15File, single bool, variant int) {
 	}
 	f.feat("extra.file")
 	f.extra = sb.String()
+	if !fx.singleOnly {
+		// the second `pkglint -F` prints the fixes of both files: it must be silent only if neither has continuation lines
+		f.singleOnly = false
+	}
 }
 
 // the raw lines of a file as pkglint sees them (split at "\n" only), and whether the last one lacks its newline
